@@ -68,3 +68,109 @@ class Seqs3:
 
     def ensures_never_ends(g_n):
         return False
+
+
+# ---- the retransmission step of send_scp_burst (one outstanding packet; the loop `for outstanding in itervalues(...)`) ------
+from pyvc.values import TRec, TReal, ListV, NONE   # noqa: E402
+from pyvc.speclib import implies   # noqa: E402
+
+OUT = TRec("TransmittedPacket", n_tries=TInt(1, None), timeout=TReal(), timeout_time=TReal(), bytestring=TInt(), packet=TInt())
+
+
+def _sock_send(E, obj, args, kwargs, st, node):
+    s = st.copy()
+    s.trace = ListV(s.trace.items + (("send", args[0]),))
+    return [(s, NONE, None)]
+
+
+@contract("rig/machine_control/scp_connection.py::SCPConnection.send_scp_burst@forbody:0")
+class RetransmitStep:
+    """one outstanding packet at the end of a turn of the main loop: nothing happens to it before its deadline has passed;
+    after it, the packet is retransmitted unchanged, counted, and given a new deadline one timeout from now - unless it has
+    already been transmitted n_tries times, in which case (and only then) TimeoutError is raised and nothing is sent"""
+    properties = ("C06",)
+    params = dict(self=TRec("SCPConnection", n_tries=TInt(1, None), sock=TRec("Socket")), outstanding=OUT, current_time=TReal())
+    fragment_result = ()
+    fragment_head = "for outstanding in six.itervalues(outstanding_packets):"
+    externals = {"Socket.send": _sock_send}
+    raises = {"TimeoutError": None}
+    assumptions = ["times are reals (T9); the socket is recorded; the packet and its bytes are opaque identities"]
+
+    def native(current_time):
+        raise __import__("pyvc.replay", fromlist=["OutsideHarness"]).OutsideHarness()
+
+    def raises_TimeoutError(self, outstanding, current_time, _trace):
+        # only for a packet whose deadline has passed and that has used up all its transmissions; nothing is sent
+        return outstanding.timeout_time < current_time and outstanding.n_tries >= self.n_tries and len(_trace) == 0
+
+    def ensures_no_early_retransmission(outstanding, outstanding_post, current_time, _trace):
+        return implies(not (outstanding.timeout_time < current_time),
+                       len(_trace) == 0 and outstanding_post.n_tries == outstanding.n_tries
+                       and outstanding_post.timeout_time == outstanding.timeout_time)
+
+    def ensures_retransmits_once_and_counts_it(self, outstanding, outstanding_post, current_time, _trace):
+        return implies(outstanding.timeout_time < current_time,
+                       outstanding.n_tries < self.n_tries
+                       and len(_trace) == 1 and _trace[0] == ("send", outstanding.bytestring)
+                       and outstanding_post.n_tries == outstanding.n_tries + 1
+                       and outstanding_post.timeout_time == current_time + outstanding.timeout
+                       and outstanding_post.timeout == outstanding.timeout and outstanding_post.bytestring == outstanding.bytestring)
+
+
+# ---- what a received reply does (the `if rc != ok: ... else: ...` statement of the receive loop) ---------------------------
+from pyvc.values import TOpt   # noqa: E402
+from pyvc.speclib import iff   # noqa: E402
+
+ENTRY = TOpt(TRec("TransmittedPacket", callback=TInt(), packet=TInt()))
+RC_OK, RC_SUM, RC_P2P_BUSY = 0x80, 0x82, 0x8d         # from the SCP specification (sark.h: RC_OK, RC_SUM, RC_P2P_BUSY)
+
+
+def _dict_get(E, obj, args, kwargs, st, node):
+    s = st.copy()
+    s.trace = ListV(s.trace.items + (("get", args[0]),))
+    return [(s, st.env["g_entry"], None)]
+
+
+def _dict_pop(E, obj, args, kwargs, st, node):
+    s = st.copy()
+    s.trace = ListV(s.trace.items + (("pop", args[0]),))
+    return [(s, st.env["g_entry"], None)]
+
+
+def _appendleft(E, obj, args, kwargs, st, node):
+    s = st.copy()
+    s.trace = ListV(s.trace.items + (("callback_queued",) + tuple(args[0]),))
+    return [(s, NONE, None)]
+
+
+@contract("rig/machine_control/scp_connection.py::SCPConnection.send_scp_burst@if:0")
+class ReplyStep:
+    """one datagram received: a reply with the OK code takes its command out of the window and queues that command's callback
+    with this reply - once, and only if the command is still outstanding (a duplicate or late reply does nothing); the two
+    retryable codes do nothing at all (the command stays outstanding and times out); every other code raises
+    FatalReturnCodeError and removes nothing"""
+    properties = ("C06",)
+    params = dict(rc=TInt(0, 0xffff), seq=TInt(0, 0xffff), ack=TInt(), outstanding_packets=TRec("Dict"), outstanding_callbacks=TRec("Deque"),
+                  g_entry=ENTRY)
+    fragment_result = ()
+    fragment_head = "if rc != consts.SCPReturnCodes.ok:"
+    externals = {"Dict.get": _dict_get, "Dict.pop": _dict_pop, "Deque.appendleft": _appendleft}
+    options = {"int_class": "rig/machine_control/consts.py::SCPReturnCodes"}
+    raises = {"FatalReturnCodeError": None}
+    assumptions = ["the window (a dict of mutable packet records) and the callback queue are opaque objects: what is looked up, removed and queued is recorded; g_entry is what the window holds for this sequence number (None: nothing)"]
+
+    def native(rc):
+        raise __import__("pyvc.replay", fromlist=["OutsideHarness"]).OutsideHarness()
+
+    def raises_FatalReturnCodeError(rc, seq, _trace):
+        return (rc != RC_OK and rc != RC_SUM and rc != RC_P2P_BUSY
+                and all(t[0] == "get" for t in _trace))          # (the command may be looked up for the message; nothing is removed or queued)
+
+    def ensures_ok_completes_the_command_once(rc, seq, ack, g_entry, _trace):
+        return implies(rc == RC_OK,
+                       len(_trace) >= 1 and _trace[0] == ("pop", seq)
+                       and iff(g_entry is None, len(_trace) == 1)
+                       and implies(g_entry is not None, len(_trace) == 2 and _trace[1] == ("callback_queued", g_entry.callback, ack)))
+
+    def ensures_retryable_codes_change_nothing(rc, _trace):
+        return implies(rc != RC_OK, (rc == RC_SUM or rc == RC_P2P_BUSY) and len(_trace) == 0)
